@@ -243,40 +243,64 @@ PROPS = {
     },
     "C05": {
         "module": 'MF.Props.C05Types',
-        "theorems": ['MF.Props.C05.type_positions', 'MF.Props.C05.type_positions_fails_backquoted', 'MF.Props.C05.ex_positions'],
-        "channels": ['TREE', 'TYPE'],
+        "theorems": ['MF.Props.C05.type_positions',
+            'MF.Props.C05.type_positions_fails_backquoted',
+            'MF.Props.C05.ex_positions',
+            'MF.Props.C05.erase_parse',
+            'MF.Props.C05.erase_parse_top',
+            'MF.Props.C05.positions_placed',
+            'MF.Props.C05.expr_positions',
+            'MF.Props.C05.folded_sign_span'],
+        "channels": ['TREE', 'TYPE', 'EXPRPOS'],
         "pred": True,
         "level": 'proof',
-        "trusted_base": ['hand-written model MF/Model/TypeParse.lean of parser.go '
+        "trusted_base": ['expression fragment: hand-written model MF/Model/ExprPos.lean of parser.go parseExpr..parseLit WITH the position fields of the Go nodes and of the generated Pos()/End() of '
+            'ast/pos.go for these node kinds; tied to memefish.ParseExpr by the EXPRPOS channel (every node of the tree in preorder: depth, kind, Pos(), End(), every stored token.Pos field)',
+            'hand-written model MF/Model/TypeParse.lean of parser.go '
             'ParseType/parseType/parseSimpleType/parseNamedType/parseArrayType/parseStructType/parseStructTypeFields/parseFieldType/parseCommaSeparatedList (one Lean function per Go function '
             "and loop; the in-place '>>' split rewrites the head of the token list), of the type nodes of ast/ast.go, ast/pos.go and ast/sql.go; tied to memefish.ParseType by the TYPE "
             'channel (every field and position, Pos()/End() of every node, SQL(), re-lexing flag rt, slice-and-reparse flag ex)',
             "specification MF/Spec/TypeGrammar.lean (G_T over token kinds written from the documentation, expansion of '>>' / '<>', yield of a tree, Match, wf), MF/Spec/TypeNodes.lean, "
             'MF/Spec/TypeShift.lean, MF/Spec/TypeReads.lean; lexer model MF/Model/Lexer.lean (LEX channel)',
             'no Lean model of the other productions of parser.go: the predicate runs the real entry points'],
-        "assumptions": ["proved for the ParseType entry point (model lexer + model parser, every accepted input): every node starts and ends on a token boundary ('>>'/'<>' counted as two one-byte "
+        "assumptions": ['proved for the expression fragment only (expr_positions); the other productions of parser.go are not modelled',
+            "proved for the ParseType entry point (model lexer + model parser, every accepted input): every node starts and ends on a token boundary ('>>'/'<>' counted as two one-byte "
             'tokens), is non-empty, in range, and contains its children in order without overlap (type_positions), except for the KNOWN DEFECT of a back-quoted simple type name (End two '
             'bytes short; type_positions_fails_backquoted proves the exclusion necessary); every other entry point is explored only',
             'every other entry point and node kind: exploration of the real entry points over corpus, probes, the reference grammar G, grafts, edits, mutations and soups (partial)'],
+        "module_extra": ['MF.Props.C05Expr'],
     },
     "C06": {
         "module": 'MF.Props.C06Types',
-        "theorems": ['MF.Props.C06.type_exact', 'MF.Props.C06.slice_lex', 'MF.Props.C06.type_exact_tokens', 'MF.Props.C06.type_exact_partial', 'MF.Props.C06.ex_exact'],
-        "channels": ['TREE', 'TYPE'],
+        "theorems": ['MF.Props.C06.type_exact',
+            'MF.Props.C06.slice_lex',
+            'MF.Props.C06.type_exact_tokens',
+            'MF.Props.C06.type_exact_partial',
+            'MF.Props.C06.ex_exact',
+            'MF.Props.C06.slice_lex_expr',
+            'MF.Props.C06.exact_parse',
+            'MF.Props.C06.expr_exact_partial',
+            'MF.Props.C06.expr_exact_inside'],
+        "channels": ['TREE', 'TYPE', 'EXPRPOS'],
         "pred": True,
         "level": 'proof',
-        "trusted_base": ['hand-written model MF/Model/TypeParse.lean of parser.go '
+        "trusted_base": ['expression fragment: model MF/Model/ExprPos.lean (EXPRPOS channel; its field c06 is clause (a) evaluated on both sides for every sub-expression of every compared tree) and the '
+            'lexer model MF/Model/Lexer.lean (LEX channel)',
+            'hand-written model MF/Model/TypeParse.lean of parser.go '
             'ParseType/parseType/parseSimpleType/parseNamedType/parseArrayType/parseStructType/parseStructTypeFields/parseFieldType/parseCommaSeparatedList (one Lean function per Go function '
             "and loop; the in-place '>>' split rewrites the head of the token list), of the type nodes of ast/ast.go, ast/pos.go and ast/sql.go; tied to memefish.ParseType by the TYPE "
             'channel (every field and position, Pos()/End() of every node, SQL(), re-lexing flag rt, slice-and-reparse flag ex)',
             "specification MF/Spec/TypeGrammar.lean (G_T over token kinds written from the documentation, expansion of '>>' / '<>', yield of a tree, Match, wf), MF/Spec/TypeNodes.lean, "
             'MF/Spec/TypeShift.lean, MF/Spec/TypeReads.lean; lexer model MF/Model/Lexer.lean (LEX channel)',
             'no Lean model of the other productions of parser.go: the predicate runs the real entry points'],
-        "assumptions": ['proved for the ParseType entry point, lexer and parser (type_exact): for every accepted input of the model and every type node n whose subtree has no SimpleType on a back-quoted '
+        "assumptions": ["clause (a) is proved for the expression fragment only (expr_exact_partial: side condition 'no unquoted SAFE_CAST / REPLACE_FIELDS field name inside the node', always true on the "
+            'compared inputs: expr_exact_inside); the Idents that are path components or selector field names are not covered (C06 is false for them: a.1, a.select)',
+            'proved for the ParseType entry point, lexer and parser (type_exact): for every accepted input of the model and every type node n whose subtree has no SimpleType on a back-quoted '
             'token (the known defect), input[Pos:End] lexes and parses on its own to n with all positions decreased by Pos(); parser side type_exact_tokens, lexer side slice_lex (window '
             'locality of the lexer model, MF/Proofs/LexWindow.lean); StructField and Ident nodes are excluded (not types); the same statement is evaluated on the implementation for every '
             'type node of every OK request of the TYPE channel (flag ex); every other entry point is explored only',
             'every other entry point and node kind: exploration of the real entry points over corpus, probes, the reference grammar G, grafts, edits, mutations and soups (partial)'],
+        "module_extra": ['MF.Props.C06Expr'],
     },
     "C08": {
         "module": 'MF.Props.C08Types',
